@@ -30,6 +30,29 @@ def chk_consistency(inp):
             return bad("structure function does not scale as r0^(-5/3)")
         if not numpy.allclose(KL.stf_vonKarman(r / r0, L0 / r0), D, rtol=1e-9):
             return bad("KL copy stf_vonKarman(r/r0, L0/r0) differs from structure_function_vk(r, r0, L0)", None, None)
+    # the series copy (YAO) is an approximation of the same model for small r/L0: within 5e-4 of the closed form for r/L0 <= 0.05
+    for L in (20., 100., 3.):
+        rs = L * numpy.array([1e-4, 1e-3, 5e-3, 0.01, 0.02, 0.035, 0.05])
+        ser, clo = KL.stf_vonKarman_yao(rs.copy(), L), KL.stf_vonKarman(rs.copy(), L)
+        if not numpy.all(abs(ser / clo - 1) <= 5e-4):
+            k = int(numpy.argmax(abs(ser / clo - 1)))
+            return bad("series copy stf_vonKarman_yao differs from the closed form at r/L0=%g (L0=%g)" % (rs[k] / L, L), float(ser[k]), float(clo[k]))
+    # repeated evaluation on ONE separation array (a caller computing several statistics on a common r): results must not depend on call history
+    r_common = numpy.linspace(0.01, 2.0, 25)
+    keep = r_common.copy()
+    first = {}
+    for rep in range(2):
+        for nm, fn in (("structure_function_kolmogorov", lambda r: aotools.structure_function_kolmogorov(r, 0.2)), ("structure_function_vk", lambda r: aotools.structure_function_vk(r, 0.2, 20.)),
+                       ("phase_covariance", lambda r: aotools.phase_covariance(r, 0.2, 20.)), ("stf_kolmogorov", KL.stf_kolmogorov), ("stf_vonKarman", lambda r: KL.stf_vonKarman(r, 20.)),
+                       ("stf_vonKarman_yao", lambda r: KL.stf_vonKarman_yao(r, 20.))):
+            v = numpy.array(fn(r_common), dtype=float)
+            if not numpy.array_equal(r_common, keep):
+                return bad("%s modified the separation array it was given" % nm)
+            if nm in first and not numpy.allclose(first[nm], v, rtol=1e-12):
+                return bad("%s returns different values on a second call with the same separations" % nm)
+            first.setdefault(nm, v)
+    if not numpy.allclose(first["structure_function_kolmogorov"], 6.88 * (keep / 0.2) ** (5. / 3), rtol=1e-12):
+        return bad("structure_function_kolmogorov is not 6.88 (r/r0)^(5/3)")
     rr = numpy.logspace(-3, 0, 20)
     if not numpy.allclose(KL.stf_kolmogorov(rr), aotools.structure_function_kolmogorov(rr, 1.0), rtol=1e-3):
         return bad("Kolmogorov copies differ by more than the rounding of the published constant")
